@@ -369,6 +369,59 @@ def k_find_history(ctx):
                               detail="search %d with filters %r: %s yielded=%r" % (step + 1, filters, name, got))
 
 
+# ---- K3d: a history of exclusions and searches on one FileSet object ----------------------------------------
+_P1 = (datetime(2019, 12, 31, 23, 0), datetime(2020, 1, 1, 0, 15))       # hits files 1 and 2 (year boundary)
+_P2 = (datetime(2020, 2, 29, 0, 0), datetime(2020, 2, 29, 23, 0))        # hits the leap-day files
+EXCL_HISTORIES = {
+    "period-then-lifted-None": [("times", [_P1]), ("times", None)],
+    "period-then-lifted-empty": [("times", [_P1, _P2]), ("times", [])],
+    "period-then-other-period": [("times", [_P1]), ("times", [_P2])],
+    "none-then-period-then-lifted": [("times", None), ("times", [_P2]), ("times", None)],
+    "names-then-other-names": [("files", [0, 2]), ("files", [5])],
+    "names-and-period-then-lifted": [("files", [1]), ("times", [_P1]), ("files", []), ("times", None)],
+}
+
+
+@harness("C01.exclude-history", cases=lambda tier: [(h, lay) for h in sorted(EXCL_HISTORIES) for lay in ("y/m/d", "flat")] if tier == "thorough" else
+         [(h, "y/m/d") for h in ("period-then-lifted-None", "period-then-lifted-empty", "period-then-other-period", "names-and-period-then-lifted")],
+         expect=lambda c: ["exclusions-in-force-are-the-last-ones-set"])
+def k_exclude_history(ctx):
+    """exclude_times / exclude_files are changed between find() calls on the *same* FileSet object: every
+    search is exact for the exclusions in force at that moment (periods as closed intervals), whatever
+    was excluded and searched before."""
+    hist, layout = ctx.case
+    tmpl, cov = LAYOUTS[layout]
+    mfs = ModelFS(ctx, max_faults=0)
+    fset = make_fileset(ctx, tmpl, mfs, time_coverage=cov)
+    files = _populate(fset, mfs, layout)
+    periods, excl_names = [], set()
+    with sym_env(ctx, WIN_TREE):
+        start = ST.sym_datetime(ctx, "start", WIN_TREE, lo=datetime(2019, 12, 1), hi=datetime(2020, 4, 1))
+        end = ST.sym_datetime(ctx, "end", WIN_TREE, lo=datetime(2019, 12, 1), hi=datetime(2020, 4, 1))
+        ctx.assume(start < end)
+        for step, (kind, arg) in enumerate(EXCL_HISTORIES[hist]):
+            if kind == "times":
+                fset.exclude_times(arg)
+                periods = list(arg or [])
+            else:
+                excl_names = {files[k][0] for k in arg}
+                fset.exclude_files(sorted(excl_names))
+            try:
+                found = [fi.path for fi in fset.find(start, end)]
+            except F.NoFilesError:
+                found = []
+            ctx.check("exclusions-in-force-are-the-last-ones-set", len(set(found)) == len(found), detail=repr(found))
+            for (name, t0, t1) in files:
+                exp = _expected(ctx, (name, t0, t1, None), start, end, periods, excl_names, lambda sat: True)
+                got = name in found
+                if ctx.sym and isinstance(exp, Sym):
+                    ctx.check("exclusions-in-force-are-the-last-ones-set", exp if got else Not(exp),
+                              detail="step %d (%s %r): %s yielded=%r" % (step + 1, kind, arg, name, got))
+                else:
+                    ctx.check("exclusions-in-force-are-the-last-ones-set", bool(exp) == got,
+                              detail="step %d (%s %r): %s yielded=%r" % (step + 1, kind, arg, name, got))
+
+
 # ---- K4: bundling by time frequency (pandas Grouper) on a concrete tree, symbolic period -----------------
 DENSE = ["2019-12-31 21:00:00", "2019-12-31 23:30:00", "2020-01-01 00:00:00", "2020-01-01 00:30:00", "2020-01-01 13:00:00",
          "2020-02-29 11:00:00", "2020-02-29 12:00:00", "2020-03-01 00:00:00"]
@@ -427,9 +480,9 @@ def k_freq(ctx):
 
 
 PLAN = {
-    "quick": {"harnesses": ["C01.per-file", "C01.bundles", "C01.tree", "C01.freq-bundles", "C01.multi-filter", "C01.find-history"],
+    "quick": {"harnesses": ["C01.per-file", "C01.bundles", "C01.tree", "C01.freq-bundles", "C01.multi-filter", "C01.find-history", "C01.exclude-history"],
               "opts": {"query_timeout_ms": 10000, "chunk_paths": 40}},
-    "thorough": {"harnesses": ["C01.per-file", "C01.bundles", "C01.tree", "C01.freq-bundles", "C01.multi-filter", "C01.find-history"],
+    "thorough": {"harnesses": ["C01.per-file", "C01.bundles", "C01.tree", "C01.freq-bundles", "C01.multi-filter", "C01.find-history", "C01.exclude-history"],
                  "opts": {"query_timeout_ms": 20000, "chunk_paths": 40}},
 }
 BOUNDS = {"quick": {"per-file decision": "flat template, n <= 2 files with arbitrary symbolic coverages (microsecond resolution), <= 1 symbolic "
@@ -439,6 +492,7 @@ BOUNDS = {"quick": {"per-file decision": "flat template, n <= 2 files with arbit
                                          "a literal directory between year and month, end fields, flat) x 8 concrete files placed at year / month / leap-day boundaries, file length <= one "
                                          "period of the finest directory level; every period [start, end) with microsecond bounds in 2019-12-01 .. 2020-04-01",
                     "several filter keys": "6 combinations of white / black (value and list) filters on two user placeholders, 5 concrete files, every symbolic period",
+                    "exclusion history": "4 sequences (thorough: 6) of 2-4 changes of exclude_times / exclude_files (set, replaced, lifted with None or []) each followed by a search on one FileSet object (thorough: x 2 layouts), every symbolic period",
                     "search history": "3 sequences of 2-3 searches with different filters on one FileSet object (thorough: 4 sequences x 2 layouts with a user placeholder directory), every symbolic period",
                     "bundling": "n <= 3 symbolic files, integer bundle sizes 1, 2, 4, sorted and unsorted; by time frequency (1D, 12h, 6h) on 8 concrete "
                                 "files (several per bundle, year / leap-day boundaries) in 2 layouts for every symbolic period"},
